@@ -11,17 +11,31 @@
   `env_initial`/`env_delta` is `i16`.
 
   Floating point.  The slide computations are written over an arithmetic dictionary
-  `Arith α` (the operations the C++ performs on `double`).  Two instances exist:
+  `Arith α` (the operations the C++ performs on `double`).  Three instances exist:
   `Arith.float` (Lean `Float` = IEEE-754 binary64, what the C++ runs; used by the driver;
-  opaque to the kernel) and `Arith.rat` (exact rationals `Q`, kernel-evaluable).  Theorems
-  quantify over *every* dictionary; clauses that depend on the arithmetic carry an explicit
-  hypothesis about the dictionary (`Properties/C11.lean`).
+  opaque to the kernel), `Arith.rat` (exact rationals `Q`, kernel-evaluable) and `Arith.b64`
+  (`B64`: binary64 written out in Lean — sign, 53-bit significand, exponent, every operation
+  the exact result rounded to nearest, ties to even, by `B64.round`; kernel-evaluable and open to
+  proof; faithful wherever no result overflows, is subnormal or is a NaN, which no operation of
+  this file reaches on tokens of fewer than 300 digits; the sign of zero is not kept).  The
+  driver runs every request with `Arith.float` AND with `Arith.b64` and the check compares both
+  with the C++.  Theorems quantify over *every* dictionary; clauses that depend on the arithmetic
+  carry an explicit hypothesis about the dictionary (`Properties/C11.lean`), which is proved for
+  `Arith.b64` (`C11_psg_slide_binary64`).
 
   Undefined behaviour in the C++ that the model makes explicit:
-  * `int16_t env_delta = trunc(delta*256)` / `int16_t env_initial = counter*256` with a value
-    outside int16 (e.g. `-127>127:1`): modelled as what g++/x86-64 emits (convert to int32,
-    keep the low 16 bits) = `i16`; flagged by the spec (the node cannot be represented).
+  * `int16_t env_initial = counter*256` with a value outside int16 (a pitch of 128 semitones or
+    more in magnitude, outside the property's quantifier): modelled as what g++/x86-64 emits
+    (convert to int32, keep the low 16 bits) = `i16`.
   No longer undefined (repository fixes followed by this model):
+  * the per-frame step `trunc(delta*256)` of a pitch node is range-checked as a `double` before
+    it is narrowed to `int16_t` (f788cbf): outside -32768..32767 `add_pitch_node` throws
+    InputError (`PErr.tooSteep`), in both forms and under `noextpitch`, before the
+    `invalid_argument` test and before any `push_back` of the iteration; `chunkDelta` is therefore
+    the un-narrowed integer and every stored step is exactly it (or its signed-byte cap under
+    `noextpitch`);
+  * `add_ins_psg` throws InputError when the loop position does not fit its byte (ff36345):
+    `psgEnd`; `psgFinish` (the two end commands) is only reached with `loopPos ≤ 255`;
   * `add_instrument` on an empty tag (`@1` with no type) is an InputError (696884e);
   * `add_ins_fm_2op` only accepts a base whose `ins_type` is `INS_FM` (45b84a6) — the base entry
     is then always a 30-byte FM image (`Proofs/MdsBase: FmInv`, theorem `C11_fm_base_inv`), so the former out-of-size
@@ -41,7 +55,11 @@
   Narrowings of `strtol` results: `int length` / `int vibrato_rate` = `i32`; `unsigned default_len`
   = `% 2^32`; `uint8_t` = `u8`.  `strtol` saturates at `LONG_MIN`/`LONG_MAX` (`clampLong`).
   Not modelled: `pcm` instruments (Wave_Bank, property C14) → `Err.unsupported`;
-  `strtod` beyond `[-]digits[.digits]` (no exponent / hex / inf / nan).
+  `strtod` beyond `[-]digits[.digits]` (no exponent / hex / inf / nan): a pitch envelope with a
+  node or vibrato token that holds one of the letters e, x, i, n (any case) is answered
+  `Err.unsupported` as a whole (`outsideStrtod`; conservative: the real `strtod` would read
+  `1e9`, `0x10`, `-inf`, `-nan` there — since f788cbf an infinite or NaN step is an InputError,
+  before it was an undefined conversion).
 -/
 import Ctrmml.Generated.Tables
 namespace Ctrmml.MdsData
@@ -132,6 +150,95 @@ def Arith.rat : Arith Q where
   beq := Q.beq
   ofDec := fun neg m k => Q.norm (if neg then -(m : Int) else m) (10 ^ k)
   fmt6 := fun a => Q.norm (Q.roundDec a 6) (10 ^ 6)
+
+/-! ## IEEE-754 binary64 written out (instance `Arith.b64`) -/
+/-- a finite binary64 value `(-1)^neg * m * 2^e`; zero is `⟨false, 0, 0⟩`, every other value is
+normalised: `2^52 ≤ m < 2^53` (so equal values are equal structures and `2^e` is the unit in the
+last place).  No exponent limits: overflow, subnormals, infinities and NaN are not represented. -/
+structure B64 where
+  neg : Bool
+  m : Nat
+  e : Int
+deriving Repr, DecidableEq
+
+namespace B64
+def p52 : Nat := 4503599627370496
+def p53 : Nat := 9007199254740992
+def zero : B64 := ⟨false, 0, 0⟩
+
+/-- the scale `k` with `2^52 ≤ ⌊n * 2^k / den⌋ < 2^53` (for `n, den > 0`): `52 - (log2 n - log2 den)`
+or one more -/
+def scale (n den : Nat) : Int :=
+  let k0 : Int := 52 - ((Nat.log2 n : Int) - (Nat.log2 den : Int))
+  if (n <<< k0.toNat) / (den <<< (-k0).toNat) < p52 then k0 + 1 else k0
+
+/-- quotient `q`, remainder `r` of a division by `b`: the quotient rounded to nearest, ties to even -/
+def rne (q r b : Nat) : Nat :=
+  if 2 * r > b then q + 1 else if 2 * r = b then (if q % 2 = 0 then q else q + 1) else q
+
+/-- a carry out of the rounding (`2^53`) moves to the next exponent -/
+def pack (neg : Bool) (q : Nat) (e : Int) : B64 := if q = p53 then ⟨neg, p52, e + 1⟩ else ⟨neg, q, e⟩
+
+/-- `± (n / den) * 2^ex` rounded to 53 significant bits, to nearest, ties to even — the one
+rounding step every IEEE operation ends with: quotient and remainder of `n * 2^k / den` at the
+scale `k` that leaves 53 bits, rounded by `rne`. -/
+def round (neg : Bool) (n den : Nat) (ex : Int) : B64 :=
+  if n = 0 ∨ den = 0 then zero else
+  let k := scale n den
+  let a := n <<< k.toNat
+  let b := den <<< (-k).toNat
+  pack neg (rne (a / b) (a % b) b) (ex - k)
+
+/-- `a + b`: the exact sum at the smaller exponent, rounded -/
+def add (a b : B64) : B64 :=
+  let em := if a.e ≤ b.e then a.e else b.e
+  let x := a.m <<< (a.e - em).toNat
+  let y := b.m <<< (b.e - em).toNat
+  if a.neg == b.neg then round a.neg (x + y) 1 em
+  else if x ≥ y then round a.neg (x - y) 1 em else round b.neg (y - x) 1 em
+
+def negate (a : B64) : B64 := if a.m = 0 then a else ⟨!a.neg, a.m, a.e⟩
+
+/-- `⌊|a|⌋` -/
+def truncNat (a : B64) : Nat := if a.e ≥ 0 then a.m <<< a.e.toNat else a.m >>> (-a.e).toNat
+
+/-- `(int)a` / `std::trunc`, saturating at the `int64` range like `Float.toInt64` -/
+def trunc (a : B64) : Int :=
+  let v : Int := if a.neg then -(truncNat a : Int) else truncNat a
+  if v > 9223372036854775807 then 9223372036854775807 else if v < -9223372036854775808 then -9223372036854775808 else v
+
+/-- `std::lround`: half away from zero (saturating like `trunc`) -/
+def lround (a : B64) : Int :=
+  let r : Nat := if a.e ≥ 0 then a.m <<< a.e.toNat else (a.m + (1 <<< ((-a.e).toNat - 1))) >>> (-a.e).toNat
+  let v : Int := if a.neg then -(r : Int) else r
+  if v > 9223372036854775807 then 9223372036854775807 else if v < -9223372036854775808 then -9223372036854775808 else v
+
+/-- exact value as a rational (not in lowest terms) -/
+def toQ (a : B64) : Q :=
+  let s : Int := if a.neg then -(a.m : Int) else a.m
+  if a.e ≥ 0 then ⟨s * ((1 <<< a.e.toNat : Nat) : Int), 1⟩ else ⟨s, 1 <<< (-a.e).toNat⟩
+end B64
+
+/-- IEEE-754 binary64 in Lean (see the header).  `ofDec` = the correctly rounded quotient
+`m / 10^k` (what a correctly rounding `strtod` returns); `fmt6` = `strtod(printf("%f"))`: the
+exact value rounded half-even to 6 decimals, read back. -/
+def Arith.b64 : Arith B64 where
+  ofInt := fun n => B64.round (decide (n < 0)) n.natAbs 1 0
+  add := B64.add
+  sub := fun a b => B64.add a (B64.negate b)
+  neg := B64.negate
+  divNat := fun a n => B64.round a.neg a.m n a.e
+  mul256 := fun a => if a.m = 0 then a else ⟨a.neg, a.m, a.e + 8⟩
+  halve := fun a => if a.m = 0 then a else ⟨a.neg, a.m, a.e - 1⟩
+  half := ⟨false, B64.p52, -53⟩
+  trunc := B64.trunc
+  lround := B64.lround
+  abs := fun a => ⟨false, a.m, a.e⟩
+  beq := fun a b => a == b
+  ofDec := fun neg m k => B64.round neg m (10 ^ k) 0
+  fmt6 := fun a =>
+    let n := Q.roundDec (B64.toQ a) 6
+    B64.round (decide (n < 0)) n.natAbs (10 ^ 6) 0
 
 /-- exact value of a finite binary64 as a rational -/
 def floatToQ (x : Float) : Q :=
@@ -381,12 +488,19 @@ def psgToken {α} (A : Arith α) (st : PsgSt) (tok : String) : Except Err PsgSt 
 def psgFinish (st : PsgSt) : NBytes :=
   if st.loopPos == -1 then st.env ++ [0x00] else st.env ++ [0x02, u8 st.loopPos]
 
-def psgCompile {α} (A : Arith α) (tag : List String) : Except Err NBytes :=
-  (tag.foldlM (psgToken A) {}).map psgFinish
+/-- the end of `add_ins_psg`: in the loop branch of the end command the loop position must fit
+its byte (`if(loop_pos > 255) throw InputError`, ff36345) -/
+def psgEnd (id : Nat) (st : PsgSt) : Except Err NBytes :=
+  if st.loopPos > (Tables.mdsdrv_psg_loop_max : Int) then
+    .error (.input (Tables.mdsdrv_msg_psg_loop.1 ++ toString id ++ Tables.mdsdrv_msg_psg_loop.2))
+  else .ok (psgFinish st)
+
+def psgCompile {α} (A : Arith α) (id : Nat) (tag : List String) : Except Err NBytes :=
+  (tag.foldlM (psgToken A) {}).bind (psgEnd id)
 
 def addInsPsg {α} (A : Arith α) (st : State) (id : Nat) (tag : List String) : Except Err State :=
   if tag.isEmpty then .ok st else
-  match psgCompile A tag with
+  match psgCompile A id tag with
   | .error e => .error e
   | .ok env =>
     match addUnique st env with
@@ -409,9 +523,10 @@ def chunkStart {α} (A : Arith α) (counter : α) : Int :=
   let e := i16 (A.trunc (A.mul256 counter))
   if e > 0x7eff then 0x7eff else e
 
-/-- `env_delta = trunc(((target-counter)/length) * 256)` of an iteration, before any clamp -/
+/-- `step = trunc(((target-counter)/length) * 256)` of an iteration: the value that is
+range-checked and then stored in `env_delta` (no narrowing: the check precedes it) -/
 def chunkDelta {α} (A : Arith α) (target counter : α) (length : Int) : Int :=
-  i16 (A.trunc (A.mul256 (A.divNat (A.sub target counter) length.toNat)))
+  A.trunc (A.mul256 (A.divNat (A.sub target counter) length.toNat))
 
 def clamp8 (d : Int) : Int := if d > 127 then 127 else if d < -128 then -128 else d
 
@@ -419,6 +534,7 @@ inductive PErr
   | input             -- InputError "undefined envelope value"
   | invalidArgument   -- std::invalid_argument("add_pitch_node"): retried in the extended form
   | tooLong           -- InputError "pitch envelope is too long (more than 256 nodes)"
+  | tooSteep          -- InputError "pitch envelope slide is too steep (the step per frame does not fit 16 bits)"
 deriving Repr, DecidableEq
 
 /-- bytes per node: `(extend ? 6u : 4u)` -/
@@ -426,6 +542,7 @@ def nodeSize (extend : Bool) : Nat := if extend then Tables.mdsdrv_pitch_node_si
 
 /-- the loop of `add_pitch_node` as the list of its iterations; `size` = `env_data->size()` at
 the top of the iteration.
+`tooSteep` = the InputError thrown when the step is outside `int16_t` (first test of the iteration);
 `invalidArgument` = `std::invalid_argument("add_pitch_node")` (compact form, extended allowed,
 step does not fit a signed byte), thrown before the node is pushed;
 `tooLong` = the InputError thrown after the push when `env_data` then holds more than
@@ -439,7 +556,8 @@ def nodeChunks {α} (A : Arith α) (useExt extend : Bool) (target : α) :
     let envInitial := chunkStart A counter
     let envDelta := chunkDelta A target counter length
     let d := if extend then envDelta else if !useExt then clamp8 envDelta else envDelta
-    if !extend && useExt && (envDelta > 127 || envDelta < -128) then .error .invalidArgument
+    if envDelta < Tables.mdsdrv_pitch_step_min || envDelta > Tables.mdsdrv_pitch_step_max then .error .tooSteep
+    else if !extend && useExt && (envDelta > 127 || envDelta < -128) then .error .invalidArgument
     else if size + nodeSize extend > nodeSize extend * Tables.mdsdrv_pitch_node_max then .error .tooLong
     else
       (nodeChunks A useExt extend target fuel (size + nodeSize extend) (length - envLen)
@@ -543,9 +661,17 @@ def pitchFinishExt (env : NBytes) (lp : Int) : NBytes :=
   if lp == -1 then (env.set (env.length - 2) 0xff).set (env.length - 1) (u8 ((nth env (env.length - 1) : Int) - 1))
   else env.set (env.length - 1) (u8 lp)
 
+/-- a token handed to `add_pitch_node` / `add_pitch_vibrato` on which the real `strtod` may leave
+the grammar `[+-]digits[.digits]` of the `strtod` above: exponent, hexadecimal, `inf`, `nan` -/
+def outsideStrtod (tok : String) : Bool :=
+  match tok.toList with
+  | c :: cs => (isDigit c || c == '-' || c == 'V') && (c :: cs).any fun x => "eExXiInN".toList.contains x
+  | [] => false
+
 def addPitch {α} (A : Arith α) (st : State) (id : Nat) (tag : List String) : Except Err State :=
   -- empty tag: early return, then `dump_data(id, pitch_map[id])` default-creates the entry
   if tag.isEmpty then .ok (if (mget st.pitchMap id).isNone then { st with pitchMap := mset st.pitchMap id 0 } else st) else
+  if tag.any outsideStrtod then .error .unsupported else
   let store (st : State) (env : NBytes) (ext : Bool) : Except Err State :=
     match addUnique st env with
     | .error e => .error e
@@ -562,10 +688,12 @@ def addPitch {α} (A : Arith α) (st : State) (id : Nat) (tag : List String) : E
     else store st (pitchFinish env lp) false
   | .error .input => .error (.input "undefined envelope value")
   | .error .tooLong => .error (.input Tables.mdsdrv_msg_pitch_too_long)
+  | .error .tooSteep => .error (.input Tables.mdsdrv_msg_pitch_step)
   | .error .invalidArgument =>
     match pitchTokens A st.useExt true tag [] (-1) with
     | .ok (env, lp) => if lp > (Tables.mdsdrv_pitch_loop_max : Int) then loopErr else store st (pitchFinishExt env lp) true
     | .error .tooLong => .error (.input Tables.mdsdrv_msg_pitch_too_long)
+    | .error .tooSteep => .error (.input Tables.mdsdrv_msg_pitch_step)
     | .error _ => .error (.input "undefined envelope value")
 
 /-! ## read_song -/
